@@ -891,7 +891,12 @@ fn global_table_from_index(mut t: u64, n: usize) -> Option<Vec<Def>> {
 }
 
 /// Quick-tier line templates (names a, b, c).
-const LINES_QUICK: [&str; 44] = [
+const LINES_QUICK: [&str; 48] = [
+    // the word after `command` is an argument like any other
+    "command a",
+    "command a b",
+    "command command a",
+    "x command a",
     "a",
     "a x",
     "a b",
